@@ -95,6 +95,10 @@ class Models:
         return f(args, kw, st, node)
 
     def call_ext(self, q, args, kw, st, node):
+        if not self.ex.spec:
+            for h in getattr(self.ex, 'before_hooks', {}).get(q.rsplit('.', 1)[-1], []):
+                if q not in ('numpy.linalg.inv', 'numpy.linalg.solve'):
+                    h(st)
         f = self.ext.get(q)
         if f is None:
             raise Unsupported('external callable %s' % q)
